@@ -377,6 +377,42 @@ func (c *Ctx) stateHiderGet(serve *ssa.Function) {
 	if n == 0 {
 		r.Info("C09.hider", FuncName(serve), "whitelist map", "-", "no map fill found in ServeHTTP (hider may take the slice directly)")
 	}
+	// and the middleware's whitelist is the configured one, nothing added
+	nw := 0
+	for _, fn := range c.P.Funcs {
+		if pkgOf(fn) != "ab/expire" {
+			continue
+		}
+		for _, b := range fn.Blocks {
+			for _, in := range b.Instrs {
+				st, ok := in.(*ssa.Store)
+				if !ok {
+					continue
+				}
+				fa, ok := st.Addr.(*ssa.FieldAddr)
+				if !ok || fieldName(fa) != "sessionWhitelist" {
+					continue
+				}
+				nw++
+				var cfg func(v ssa.Value, d int) bool
+				cfg = func(v ssa.Value, d int) bool {
+					if phi, isPhi := v.(*ssa.Phi); isPhi && d < 4 {
+						for _, e := range phi.Edges {
+							if !cfg(e, d+1) {
+								return false
+							}
+						}
+						return true
+					}
+					return fieldLoadName(v) == "SessionStateWhitelistKeys"
+				}
+				r.Check(cfg(st.Val, 0), "C09.hider", FuncName(fn), "sessionWhitelist = configured keys", posf(c, st), "the middleware's whitelist is Config.Storage.SessionStateWhitelistKeys", "the middleware's whitelist is not the configured SessionStateWhitelistKeys verbatim ("+SafeString(st.Val)+"): keys the integrator did not list survive and stay visible after the session expired")
+			}
+		}
+	}
+	if nw == 0 {
+		r.Unknown("C09.hider", "ab/expire", "sessionWhitelist initialisation", "-", "no store to the middleware's whitelist found")
+	}
 }
 
 func (c *Ctx) expiryCodec(tte, refresh *ssa.Function, last string) {
